@@ -647,19 +647,6 @@ bins_of(const Geo& g, const std::vector<int>& vgids, bool drop_endplanes)
   return bins;
 }
 
-// every bin replaced by the bin with the same segment, view, axial and tangential position at timing position 0
-static std::vector<int>
-at_tof0(const Geo& g, const std::vector<int>& bins)
-{
-  std::vector<int> r;
-  for (int bi : bins)
-    {
-      const BinRec& b = g.bins[bi];
-      r.push_back(g.index.at({ b.seg, b.view, b.ax, b.tang, 0 }));
-    }
-  return r;
-}
-
 static std::string
 ids_str(const std::vector<int>& ids)
 {
@@ -717,13 +704,6 @@ run_case(Out& o, Case& k, vh::Rng& rng, int case_id, bool thorough, std::map<std
   char buf[512];
   std::snprintf(buf, sizeof buf, "cfg %d nvox=%d zero=%d sameproj=%d %s", case_id, nvox, c.zero ? 1 : 0, k.same_proj ? 1 : 0, c.str().c_str());
   o.line(buf, "ok");
-  {
-    // for every viewgram id the id of the viewgram with the same segment and view at timing position 0
-    std::vector<int> t0(k.g.vgs.size());
-    for (auto& kv : k.g.vgid)
-      t0[kv.second] = k.g.vgid.at({ kv.first[0], kv.first[1], 0 });
-    o.line("vgs" + ids_str(t0), "ok");
-  }
   o.line("img " + hexvec(k.lam), "ok");
   o.line("inp " + hexvec(k.x), "ok");
   emit_geometry(o, k, "bin", k.g, true);
@@ -805,8 +785,6 @@ run_case(Out& o, Case& k, vh::Rng& rng, int case_id, bool thorough, std::map<std
       std::map<int, int> vg_count;
       const float c0 = rng.coin() ? 0.F : static_cast<float>(rng.range(1, 8)) * 0.25F;
       bool all_regular = true;
-      // distributable.cxx:214: the ones created for zero_seg0_end_planes without normalisation are at timing position 0
-      const bool sens_defect_cfg = k.g.pdi->is_tof_data() && k.same_proj && c.zero && c.normkind == 0;
 
       for (int s = 0; s < n; ++s)
         {
@@ -891,30 +869,16 @@ run_case(Out& o, Case& k, vh::Rng& rng, int case_id, bool thorough, std::map<std
                   }
                 else
                   ++hist["oracle-gradient-irregular"];
-                bool sens_defect = false;
                 if (c.use_subset_sens)
                   {
+                    ++hist["oracle-subset-sensitivity"];
                     int bad = cmp_vec(sensv, ts.v, ts.m, ORACLE_REL);
                     if (bad >= 0)
-                      {
-                        Textbook ts0 = textbook(Q_SENS, gs, at_tof0(gs, tb_sbins), c.additive, k.lam, k.x, nvox);
-                        if (sens_defect_cfg && cmp_vec(sensv, ts0.v, ts0.m, ORACLE_REL) < 0)
-                          {
-                            sens_defect = true;
-                            o.candidate("sensitivity:tof-zero-end-planes-trivial-norm-at-timing-pos-0",
-                                        "TOF data with TOF sensitivities, zero_seg0_end_planes=true and trivial normalisation: the multiplicative viewgrams "
-                                        "made by get_viewgrams (distributable.cxx:214, get_empty_related_viewgrams without timing_pos) are at timing position 0 "
-                                        "and are what the sensitivity back-projects: subset sensitivity = (number of TOF bins) x back projection of TOF bin 0, "
-                                        "not P^T n, and gradient_plus_sensitivity - gradient != sensitivity; first seen at voxel "
-                                            + std::to_string(bad) + " impl=" + vh::hex(sensv[bad]) + " textbook=" + vh::hex(ts.v[bad]) + " " + ctx);
-                          }
-                        else
-                          o.fail("subset sensitivity differs from P^T n at voxel " + std::to_string(bad) + ": impl=" + vh::hex(sensv[bad]) + " textbook="
-                                 + vh::hex(ts.v[bad]) + " " + ctx);
-                      }
+                      o.fail("subset sensitivity differs from P^T n at voxel " + std::to_string(bad) + ": impl=" + vh::hex(sensv[bad]) + " textbook="
+                             + vh::hex(ts.v[bad]) + " " + ctx);
                   }
                 // "gradient plus sensitivity" exceeds the gradient by exactly the sensitivity (same projector; subset sensitivities)
-                if (k.same_proj && c.use_subset_sens && !sens_defect)
+                if (k.same_proj && c.use_subset_sens)
                   {
                     ++hist["oracle-gps-minus-grad"];
                     std::vector<float> diff(nvox);
@@ -956,36 +920,30 @@ run_case(Out& o, Case& k, vh::Rng& rng, int case_id, bool thorough, std::map<std
                 int bad = cmp_vec(h0, th.v, th.m, ORACLE_REL);
                 if (bad >= 0)
                   {
-                    // is the difference explained by (A) every TOF bin of the loop having been processed with the data, projections and
-                    // back projection of timing position 0, and/or (B) the end planes of segment 0 not having been cleared?
-                    std::vector<int> read_vg;
-                    for (int id : vg)
-                      read_vg.push_back(k.g.vgid.at({ k.g.bins[k.g.vgs[id][0]].seg, k.g.bins[k.g.vgs[id][0]].view, 0 }));
-                    const bool tofdata = k.g.pdi->is_tof_data();
-                    Textbook tA = textbook(Q_HESS, k.g, bins_of(k.g, tofdata ? read_vg : vg, false), c.additive, k.lam, k.x, nvox);
-                    Textbook tA0 = textbook(Q_HESS, k.g, bins_of(k.g, tofdata ? read_vg : vg, c.zero), c.additive, k.lam, k.x, nvox);
-                    for (int i = 0; i < nvox; ++i)
-                      tA.m[i] += std::fabs(c0), tA0.m[i] += std::fabs(c0);
-                    const bool explainedA = tA.regular && cmp_vec(h0, tA.v, tA.m, ORACLE_REL) < 0;
-                    const bool zero_matters = c.zero && cmp_vec(h0, tA0.v, tA0.m, ORACLE_REL) >= 0;
-                    if (!tA.regular)
-                      ++hist["oracle-hessian-irregular"]; // the bins the function really reads are not all in the regular region: no verdict
-                    else if (explainedA)
+                    // The one listed class of failing input: zero_seg0_end_planes = true, where the function is known not to clear the end
+                    // planes of segment 0.  Only a result that equals the textbook expression over ALL bins of the subset's viewgrams (end
+                    // planes included, every TOF bin with its own data) is that class; anything else is a plain failure.
+                    bool listed = false;
+                    if (c.zero)
                       {
-                        const std::string where = " first seen at voxel " + std::to_string(bad) + " impl=" + vh::hex(h0[bad])
-                                                  + " textbook=" + vh::hex(th.v[bad]) + " " + ctx;
-                        if (tofdata)
-                          o.candidate("hessian:tof-data-processed-at-timing-pos-0",
-                                      "accumulate_sub_Hessian_times_input on TOF data: for every TOF bin of its loop the measured data, additive term, "
-                                      "forward projections and back projection are those of timing position 0 (get_related_viewgrams / "
-                                      "get_empty_related_viewgrams called without timing_pos): result = (number of TOF bins) x contribution of TOF bin 0, "
-                                      "not -P^T diag(y/ybar^2) P x;" + where);
-                        if (zero_matters)
-                          o.candidate("hessian:ignores-zero-seg0-end-planes",
-                                      "accumulate_sub_Hessian_times_input with zero_seg0_end_planes=true includes the end planes of segment 0 "
-                                      "(value and gradient exclude them): result equals -P^T diag(y/ybar^2) P x over ALL bins;" + where);
+                        Textbook tA = textbook(Q_HESS, k.g, tb_bins_nozero, c.additive, k.lam, k.x, nvox);
+                        for (int i = 0; i < nvox; ++i)
+                          tA.m[i] += std::fabs(c0);
+                        if (!tA.regular)
+                          {
+                            listed = true; // the bins the function really reads are not all in the regular region: no verdict
+                            ++hist["oracle-hessian-irregular"];
+                          }
+                        else if (cmp_vec(h0, tA.v, tA.m, ORACLE_REL) < 0)
+                          {
+                            listed = true;
+                            o.candidate("hessian:ignores-zero-seg0-end-planes",
+                                        "accumulate_sub_Hessian_times_input with zero_seg0_end_planes=true includes the end planes of segment 0 "
+                                        "(value and gradient exclude them): result equals -P^T diag(y/ybar^2) P x over ALL bins; first seen at voxel "
+                                            + std::to_string(bad) + " impl=" + vh::hex(h0[bad]) + " textbook=" + vh::hex(th.v[bad]) + " " + ctx);
+                          }
                       }
-                    else
+                    if (!listed)
                       o.fail("Hessian times input differs from -P^T diag(y/(P lambda + a)^2) P x at voxel " + std::to_string(bad) + ": impl="
                              + vh::hex(h0[bad]) + " textbook=" + vh::hex(th.v[bad]) + " " + ctx);
                   }
@@ -1027,6 +985,26 @@ run_case(Out& o, Case& k, vh::Rng& rng, int case_id, bool thorough, std::map<std
             if (bad >= 0)
               o.fail("compute_gradient != sum over subsets of compute_sub_gradient at voxel " + std::to_string(bad) + " " + ctx);
           }
+        // full-data Hessian product of the API = the subset products accumulated one after the other (any configuration)
+        {
+          ++o.checks;
+          shared_ptr<TargetT> fh(k.image->get_empty_copy());
+          fh->fill(c0);
+          Succeeded fs = Succeeded::no;
+          if (!(guarded([&] { fs = obj->accumulate_Hessian_times_input(*fh, *lam_im, *x_im); }) && fs == Succeeded::yes))
+            o.fail("full-data Hessian times input: exception " + ctx);
+          else
+            {
+              std::vector<float> fhv = to_vec(*fh);
+              std::vector<double> expect(nvox), mag(nvox);
+              for (int i = 0; i < nvox; ++i)
+                fhv[i] -= c0, expect[i] = sum_hess[i], mag[i] = sum_mag_hess[i] + std::fabs(c0) * (n + 1);
+              int bad = cmp_vec(fhv, expect, mag, 1e-5);
+              if (bad >= 0)
+                o.fail("accumulate_Hessian_times_input != sum over subsets of accumulate_sub_Hessian_times_input at voxel " + std::to_string(bad) + ": "
+                       + vh::hex(fhv[bad]) + " vs " + vh::hex(expect[bad]) + " " + ctx);
+            }
+        }
         // subset numbers outside 0..n-1 are refused (GeneralisedObjectiveFunction.cxx:136, :232)
         for (int s : { -1, n, n + 3, 0 })
           {
@@ -1065,33 +1043,35 @@ run_case(Out& o, Case& k, vh::Rng& rng, int case_id, bool thorough, std::map<std
             int bad = cmp_vec(sg, tg.v, tg.m, 2 * ORACLE_REL);
             if (bad >= 0)
               o.fail("sum over subsets of the gradient != full-data gradient at voxel " + std::to_string(bad) + " " + ctx);
-            if (!c.zero && !k.g.pdi->is_tof_data())
-              {
-                std::vector<float> sh(sum_hess.begin(), sum_hess.end());
-                bad = cmp_vec(sh, th.v, sum_mag_hess, 2 * ORACLE_REL);
-                if (bad >= 0)
-                  o.fail("sum over subsets of Hessian times input != full-data Hessian times input at voxel " + std::to_string(bad) + " " + ctx);
-              }
+            // (with zero_seg0_end_planes the subset results are known to contain the end planes: hessian:ignores-zero-seg0-end-planes, reported
+            // per subset above; the sum is then compared with the textbook expression over all bins, end planes included)
+            {
+              std::vector<int> all_bins_h;
+              for (std::size_t i = 0; i < k.g.bins.size(); ++i)
+                if (std::abs(k.g.bins[i].seg) <= k.maxseg_eff)
+                  all_bins_h.push_back(static_cast<int>(i));
+              Textbook thh = c.zero ? textbook(Q_HESS, k.g, all_bins_h, c.additive, k.lam, k.x, nvox) : th;
+              if (thh.regular)
+                {
+                  ++hist["oracle-sum-over-subsets-hessian"];
+                  std::vector<float> sh(sum_hess.begin(), sum_hess.end());
+                  bad = cmp_vec(sh, thh.v, sum_mag_hess, 2 * ORACLE_REL);
+                  if (bad >= 0)
+                    o.fail("sum over subsets of Hessian times input != full-data Hessian times input at voxel " + std::to_string(bad) + ": "
+                           + vh::hex(sh[bad]) + " vs " + vh::hex(thh.v[bad]) + " " + ctx);
+                }
+            }
           }
         {
-          Textbook ts0 = textbook(Q_SENS, gs, at_tof0(gs, all_sens_bins), c.additive, k.lam, k.x, nvox);
           std::vector<float> ss(sum_sens.begin(), sum_sens.end());
           int bad = cmp_vec(ss, ts.v, ts.m, 2 * ORACLE_REL);
-          if (bad >= 0 && !(sens_defect_cfg && cmp_vec(ss, ts0.v, ts0.m, 2 * ORACLE_REL) < 0))
+          if (bad >= 0)
             o.fail("sum over subsets of the subset sensitivities != full sensitivity P^T n at voxel " + std::to_string(bad) + ": " + vh::hex(ss[bad])
                    + " vs " + vh::hex(ts.v[bad]) + " " + ctx);
           std::vector<float> tot = to_vec(obj->get_sensitivity());
           bad = cmp_vec(tot, ts.v, ts.m, 2 * ORACLE_REL);
           if (bad >= 0)
-            {
-              if (sens_defect_cfg && cmp_vec(tot, ts0.v, ts0.m, 2 * ORACLE_REL) < 0)
-                o.candidate("sensitivity:tof-zero-end-planes-trivial-norm-at-timing-pos-0",
-                            "TOF data with TOF sensitivities, zero_seg0_end_planes=true and trivial normalisation: get_sensitivity() = (number of TOF "
-                            "bins) x back projection of TOF bin 0 (distributable.cxx:214, get_empty_related_viewgrams without timing_pos), not P^T n; voxel "
-                                + std::to_string(bad) + " impl=" + vh::hex(tot[bad]) + " textbook=" + vh::hex(ts.v[bad]) + " " + ctx);
-              else
-                o.fail("get_sensitivity() != P^T n at voxel " + std::to_string(bad) + " " + ctx);
-            }
+            o.fail("get_sensitivity() != P^T n at voxel " + std::to_string(bad) + ": " + vh::hex(tot[bad]) + " vs " + vh::hex(ts.v[bad]) + " " + ctx);
         }
       }
     }
@@ -1184,13 +1164,11 @@ run_penalised(Out& o, Case& k, vh::Rng& rng, std::map<std::string, long>& hist)
               prior->accumulate_Hessian_times_input(*ph_out, *lam_im, *ha);
             }
           const std::vector<double> q = dvec(*ha), pin = dvec(*ph), pout = dvec(*ph_out), got = dvec(*hb);
-          // model line: the code as it stands hands its *output* to the prior (GeneralisedObjectiveFunction.cxx:295, :397)
+          // model line: the prior's Hessian is applied to the input (GeneralisedObjectiveFunction.cxx:295, :397)
           std::string op = std::string(approx ? "penah " : "penh ") + std::to_string(n) + " " + std::to_string(q.size());
           for (double v : q)
             op += " " + vh::hex(v);
           for (double v : pin)
-            op += " " + vh::hex(v);
-          for (double v : pout)
             op += " " + vh::hex(v);
           std::string ans;
           for (std::size_t i = 0; i < got.size(); ++i)
@@ -1211,12 +1189,8 @@ run_penalised(Out& o, Case& k, vh::Rng& rng, std::map<std::string, long>& hist)
               const std::string where = std::string(approx ? "add_multiplication_with_approximate_sub_Hessian" : "accumulate_sub_Hessian_times_input")
                                         + " with a prior: voxel " + std::to_string(bad) + " result=" + vh::hex(got[bad]) + " expected (LL part) - (prior Hessian x input)/n = "
                                         + vh::hex(q[bad] - pin[bad] / n) + " " + ctx;
-              if (bad_alt < 0)
-                o.candidate("penalised-hessian:prior-hessian-applied-to-output",
-                            "the penalised Hessian-times-input hands its own output (initial output minus the log-likelihood part) to the prior's "
-                            "Hessian instead of the input vector: result = q - H_prior(q)/n with q the unpenalised result; " + where);
-              else
-                o.fail("penalised Hessian times input != unpenalised - (prior Hessian x input)/num_subsets: " + where);
+              o.fail(std::string("penalised Hessian times input != unpenalised - (prior Hessian x input)/num_subsets")
+                     + (bad_alt < 0 ? " (it is unpenalised - (prior Hessian x OUTPUT)/num_subsets): " : ": ") + where);
             }
         }
       return;
@@ -1333,8 +1307,7 @@ run_orders(Out& o, Case& k, vh::Rng& rng, bool thorough, std::map<std::string, l
       while (std::next_permutation(kinds.begin(), kinds.end()));
       for (auto& kv : depends)
         if (kv.second)
-          o.candidate("setup-flag:order-dependent-" + kv.first,
-                      "the outcome of the first '" + kv.first + "' request after set_up depends on the order of requests / on the indeterminate value of "
+          o.fail("order of first requests: the outcome of the first '" + kv.first + "' request after set_up depends on the order of requests / on the indeterminate value of "
                       "the member latest_setup_distributable_computation_was_with_orig_projectors (no initialiser): with set_up not computing the "
                       "sensitivities (recompute="
                           + std::to_string(recompute) + ") the request fails with 'internal error: setup_distributable_computation not called' in order "
